@@ -67,7 +67,7 @@ for p in det.split():
         if ("violation" in l or "undecided" in l) and "[" in l and not l.startswith("VIOLATION"):
             ks.append(l[l.rfind("[")+1:l.rfind("]")])
     keys[p]=sorted(set(ks))
-meta={"property":prop,"breaks":a.get("summary"),"needs_to_manifest":a.get("needs_to_manifest"),"files_changed":a.get("files_changed"),
+meta={"property":prop,"breaks":a.get("summary") or a.get("breaks"),"needs_to_manifest":a.get("needs_to_manifest"),"files_changed":a.get("files_changed"),
  "what_i_ran":{"demo_cmd":demo,"demo_with_change_exit":int(w),"demo_without_change_exit":int(wo),"go_build_exit":int(b),"existing_suite_exit":int(s),
    "checks":"every claimed check's quick command against /repo with patch.diff applied (git apply), then git checkout -- ."},
  "confirmed": int(w)!=0 and int(wo)==0 and int(b)==0 and int(s)==0,
